@@ -525,7 +525,27 @@ func (g *scopegen) stmt(s *sgScope) {
 				s.lex[n] = true
 				g.export[n] = true
 				g.decls++
-				g.line("export let %s = %d;", n, g.uniq())
+				// exported names are externally observable whatever the shape of the declaration that introduces them
+				switch g.rng.Intn(6) {
+				case 0:
+					g.line("export const {k: %s} = {k: %d};", n, g.uniq())
+				case 1:
+					g.line("export var [%s = 0] = [%d];", n, g.uniq())
+				case 2:
+					g.line("export const {a: [, %s]} = {a: [0, %d]};", n, g.uniq())
+				case 3:
+					n2 := g.name()
+					if n2 != n && s.canLex(n2) && !g.export[n2] {
+						s.lex[n2] = true
+						g.export[n2] = true
+						g.decls++
+						g.line("export let {k: %s, ...%s} = {k: %d, rest: %d};", n, n2, g.uniq(), g.uniq())
+					} else {
+						g.line("export let [...%s] = [%d];", n, g.uniq())
+					}
+				default:
+					g.line("export let %s = %d;", n, g.uniq())
+				}
 				return
 			}
 		}
